@@ -317,7 +317,7 @@ def discover():
         names.append("json_rpc_message.JSONRPCMessageWrapper")
     names += [n for n, _, _ in literal_sites()]
     # scenarios on shared objects (not emitters of their own: sequences of the emitters above)
-    names += ["seq:shared-params", "seq:handler-reuse", "seq:batch-reuse"]
+    names += ["seq:shared-params", "seq:handler-reuse", "seq:batch-reuse", "seq:twins"]
     names += ["transport:stdio-writer", "transport:http-post", "transport:sse-post"]
     return names
 
@@ -487,7 +487,9 @@ def d_send_message(a):
 
     async def go(r, w):
         kw = {}
-        if a.get("mid") is not None:
+        if a.get("mid_id") is not None:
+            kw["message_id"] = idval(a["mid_id"])  # an id of either JSON type
+        elif a.get("mid") is not None:
             kw["message_id"] = s_(a["mid"])
         if a.get("progress"):
             kw["progress_callback"] = cb
@@ -630,6 +632,95 @@ def d_seq_handler_reuse(a):
     return out
 
 
+def d_seq_twins(a):
+    """TWO or three instances of one stateful class alive in one process, driven alternately with EQUAL ids and names;
+    then each instance's share of the steps is replayed on a fresh instance of its own.  What an instance emits must not
+    depend on the presence of the others.  kinds: ProtocolHandler, MCPServer, BatchProcessor."""
+    from chuk_mcp.protocol.features.batching import BatchProcessor
+    from chuk_mcp.server.server import MCPServer
+
+    kind, n = a["kind"], int(a.get("n", 2))
+    text = s_(a.get("text") or [120])
+    payload = _obj(a.get("payload"))
+
+    def make(i):
+        if kind == "handler":
+            h = _handler()
+
+            async def ok(message, session_id, i=i):
+                return h.create_response(message.id, {"instance": i, "p": payload}), None
+
+            async def bad(message, session_id):
+                raise make_exc(a.get("exc"), text)
+
+            h.register_method("x/ok", ok)
+            h.register_method("x/bad", bad)
+            return h
+        if kind == "server":
+            srv = MCPServer("verif", version=str(i))
+
+            async def tool(i=i, **kw):
+                return {"instance": i, "p": payload}
+
+            async def tool_bad(**kw):
+                raise make_exc(a.get("exc"), text)
+
+            async def res(i=i):
+                return f"{i}:{text}"
+
+            srv.register_tool("t", tool, {"type": "object"}, description=str(i))
+            srv.register_tool("bad", tool_bad, {"type": "object"})
+            srv.register_resource("file:///r", res, name=str(i))
+            return srv.protocol_handler
+        return BatchProcessor(["2025-03-26", "2025-06-18", "2024-11-05"][i % 3])
+
+    def run(objs, steps):
+        out = []
+        for i, step, idt in steps:
+            o = objs[i]
+            if kind == "batch":
+                def handler(item):
+                    if item.get("method") == "bad":
+                        raise make_exc(a.get("exc"), text)
+                    return None
+                r = o.process_message_data([{"jsonrpc": "2.0", "id": idval(idt), "method": step}], handler)
+                items = [r] if isinstance(r, dict) else [x for x in (r or []) if isinstance(x, dict)]
+                out += [(i, x) for x in items]
+                continue
+            params = None
+            if step == "tools/call":
+                params = {"o": [[J.cps("name"), J.S("t")], [J.cps("arguments"), {"o": []}]]}
+            elif step == "tools/call:bad":
+                step, params = "tools/call", {"o": [[J.cps("name"), J.S("bad")]]}
+            elif step == "resources/read":
+                params = {"o": [[J.cps("uri"), J.S("file:///r")]]}
+            elif step == "initialize":
+                params = {"o": [[J.cps("protocolVersion"), J.S("2025-06-18")], [J.cps("clientInfo"), {"o": [[J.cps("name"), J.S(text)]]}]]}
+            msg = _incoming({"id": idt, "method": J.cps(step), "params": params})
+            r, exc = _run(lambda o=o, msg=msg: o.handle_message(msg))
+            if r is not None and r[0] is not None:
+                out.append((i, r[0]))
+        return out
+
+    steps = [(st[0] % n, st[1], st[2]) for st in a["steps"]]
+    together = run([make(i) for i in range(n)], steps)
+
+    def dumped(x):
+        d = copy.deepcopy(x if isinstance(x, dict) else x.model_dump(exclude_none=True))
+        if isinstance(d.get("error"), dict):
+            d["error"].pop("message", None)  # exception texts may carry object addresses
+        return d
+
+    independent, detail = True, None
+    for i in range(n):
+        alone = run({i: make(i)}, [st for st in steps if st[0] == i])
+        mine = [dumped(x) for j, x in together if j == i]
+        if mine != [dumped(x) for _, x in alone]:
+            independent, detail = False, f"instance {i} of {n} answers differently when other instances are alive"
+            break
+    return [x for _, x in together], None, {"independent": independent, "detail": detail}
+
+
 def d_seq_batch_reuse(a):
     """one BatchProcessor used for several batches, its protocol version changed in between"""
     from chuk_mcp.protocol.features.batching import BatchProcessor
@@ -646,6 +737,14 @@ def d_seq_batch_reuse(a):
     for step in a["steps"]:
         if step.startswith("version:"):
             bp.update_protocol_version(step[8:])
+            continue
+        if step == "mixed":  # good, failing, good, failing twice, good
+            items = [{"jsonrpc": "2.0", "id": idval(i), "method": m_} for i in a["ids"] for m_ in ("ping", "bad", "ping", "bad", "bad", "ping")]
+            r = bp.process_message_data(items, handler)
+            if isinstance(r, dict):
+                out.append(r)
+            elif isinstance(r, list):
+                out += [x for x in r if isinstance(x, dict)]
             continue
         items = [{"jsonrpc": "2.0", "id": idval(i), "method": step} for i in a["ids"]]
         r = bp.process_message_data(items, handler)
@@ -665,7 +764,8 @@ class AppError(Exception):
 
 
 EXC_KINDS = ["runtime", "value", "key-tuple", "unicode-decode", "object-arg", "bytes-arg", "set-arg", "no-args",
-             "app", "app-object", "os", "nested", "mixed-args", "exc-arg", "bad-str", "empty-str"]
+             "app", "app-object", "os", "nested", "mixed-args", "exc-arg", "bad-str", "empty-str",
+             "type", "key", "index", "attribute", "recursion", "plain", "lookup", "assertion", "stop-iteration", "timeout", "unicode-encode"]
 
 
 def make_exc(kind, text):
@@ -714,6 +814,15 @@ def make_exc(kind, text):
         return Unprintable(text)
     if kind == "empty-str":
         return ValueError("")
+    simple = {"type": TypeError, "key": KeyError, "index": IndexError, "attribute": AttributeError, "recursion": RecursionError,
+              "plain": Exception, "lookup": LookupError, "assertion": AssertionError, "stop-iteration": StopIteration, "timeout": TimeoutError}
+    if kind in simple:
+        return simple[kind](text)
+    if kind == "unicode-encode":
+        try:
+            "\ud800".encode("utf-8")
+        except UnicodeEncodeError as ex:
+            return ex
     raise ValueError(f"unknown exception kind {kind}")
 
 
@@ -788,7 +897,11 @@ def d_handler_create_error_response(a):
 def d_mcpserver(a):
     from chuk_mcp.server.server import MCPServer
 
-    srv = MCPServer("verif")
+    if a.get("opts"):
+        from chuk_mcp.protocol.types.capabilities import ServerCapabilities
+        srv = MCPServer(s_(a.get("text") or [118]) or "v", version="9.9.9-\u00e9", capabilities=ServerCapabilities())
+    else:
+        srv = MCPServer("verif")
     payload = _obj(a.get("payload"))
     text = s_(a.get("text") or [120])
 
@@ -1029,6 +1142,7 @@ def literal_driver(node, path):
                              f"for {[n for n in free if n not in known and n not in SAFE_BUILTINS]}: {type(last).__name__}")
 
     drive.keys = sorted(k.value for k in node.keys if isinstance(k, ast.Constant))
+    drive.id_direct = any(isinstance(k, ast.Constant) and k.value == "id" and isinstance(v, ast.Name) for k, v in zip(node.keys, node.values))
     return drive
 
 
@@ -1239,7 +1353,11 @@ def d_http_post(a):
     real, Client, seen = _http_capture(mod, respond)
 
     async def main():
-        t = mod.StreamableHTTPTransport(StreamableHTTPParameters(url="http://verif.invalid/mcp"))
+        kw = {}
+        if a.get("opts"):
+            kw = dict(headers={"X-Trace": "t-1", "Authorization": "Basic x"} if a["opts"] == 2 else {"X-A": "b"},
+                      bearer_token="tok", session_id="sess-1", timeout=0.5, user_agent="verif/1")
+        t = mod.StreamableHTTPTransport(StreamableHTTPParameters(url="http://verif.invalid/mcp", **kw))
         for msg in msgs:
             await t._send_message_internal(msg)
 
@@ -1273,7 +1391,12 @@ def d_sse_post(a):
         return httpx.Response(202)
 
     async def main():
-        t = mod.SSETransport(SSEParameters(url="http://verif.invalid"))
+        kw = dict(headers={"X-A": "b"}, timeout=0.5, bearer_token="tok") if a.get("opts") else {}
+        try:
+            params = SSEParameters(url="http://verif.invalid", **kw)
+        except Exception:  # noqa: BLE001 - an option this version does not know
+            params = SSEParameters(url="http://verif.invalid")
+        t = mod.SSETransport(params)
         t._send_client = httpx.AsyncClient(transport=httpx.MockTransport(handler))
         t._message_url = "http://verif.invalid/messages"
         try:
@@ -1321,6 +1444,7 @@ def drivers():
         "seq:shared-params": ("seq", d_seq_shared_params),
         "seq:handler-reuse": ("seq", d_seq_handler_reuse),
         "seq:batch-reuse": ("seq", d_seq_batch_reuse),
+        "seq:twins": ("seq", d_seq_twins),
         "server.ProtocolHandler.handle_message": ("server", d_handle_message),
         "server.ProtocolHandler.create_response": ("ctor", d_handler_create_response),
         "server.ProtocolHandler.create_error_response": ("ctor", d_handler_create_error_response),
@@ -1357,8 +1481,37 @@ def drivers():
     return D
 
 
+class debug_logging:
+    """as a host application with logging configured at DEBUG (records go to a NullHandler)"""
+
+    def __enter__(self):
+        import logging
+
+        root = logging.getLogger()
+        self.prev = (root.manager.disable, root.level, list(root.handlers))
+        root.handlers[:] = [logging.NullHandler()]
+        root.setLevel(logging.DEBUG)
+        logging.disable(logging.NOTSET)
+
+    def __exit__(self, *exc):
+        import logging
+
+        root = logging.getLogger()
+        logging.disable(self.prev[0])
+        root.setLevel(self.prev[1])
+        root.handlers[:] = self.prev[2]
+        return False
+
+
 def run_case(case):
-    """case = {"emitter": name, "args": {...}} -> observation"""
+    """case = {"emitter": name, "args": {...}, "debug_log": bool} -> observation"""
+    if case.get("debug_log"):
+        with debug_logging():
+            return _run_case(case)
+    return _run_case(case)
+
+
+def _run_case(case):
     D = drivers()
     ent = D.get(case["emitter"])
     if ent is None:
